@@ -771,7 +771,11 @@ func c13Grpcpath(c *Ctx) {
 		}
 		return false
 	}
-	for _, anchor := range []*ssa.Function{c.a.FileStmtQuery, c.a.GrpcStmtQuery} {
+	for k, anchor := range []*ssa.Function{c.a.FileStmtQuery, c.a.GrpcStmtQuery} {
+		if anchor == nil {
+			c.r.undecided(rule, []string{"file statement", "grpc statement"}[k], "the statement's query function was not found (neither by its shape nor by its name)")
+			continue
+		}
 		name := safeFname(anchor)
 		n := 0
 		for _, fn := range c.scope(anchor, 2, c.a.ReplacePH, c.a.NumInput, c.a.NewRows) {
